@@ -2,6 +2,7 @@
 import lib
 import wpt
 import urlcorr
+import urlpreds
 from lib import hx, unhx
 
 CMP = urlcorr.SPEC_FIELDS
@@ -44,6 +45,12 @@ def compare_case(run, r, prop, fields=CMP, types=("seqagg", "sequrl"), flags=Tru
         if s_status.startswith("need-idna"):
             continue
         if a_status != s_status:
+            if a_status == "fail" and s_status == "ok" and urlpreds.idna_cap_class(r["case"]):
+                run.violation("known:idna-input-cap-16384", f"{T[3:]}: parse fails on a host longer than 16384 bytes that needs "
+                              f"domain-to-ASCII processing; the Standard has no such bound: {str(urlcorr.describe(r['case']))[:200]}",
+                              lines=[r[T + "_line"][:300]])
+                ok = False
+                continue
             run.violation(f"{prop}:status:{r[T + '_line']}", f"{T[3:]}: parse {a_status} but the Standard says {s_status}: "
                           f"{urlcorr.describe(r['case'])}", lines=[r[T + "_line"]],
                           detail={"spec": r.get("spec_raw", "")[:600]})
